@@ -846,6 +846,32 @@ fn coq_ty(t: &syn::Type) -> String {
 
 fn main() {
     let args: Vec<String> = std::env::args().collect();
+    if args.len() == 3 && args[1] == "--lock" {
+        let mut fns = vec![];
+        for f in ["lib.rs", "future.rs", "internal.rs"] {
+            let text = fs::read_to_string(format!("{}/{}", args[2], f)).unwrap();
+            aut::collect(f, &syn::parse_file(&text).unwrap(), &mut fns);
+        }
+        let prims = aut::lock_prims(&fns);
+        println!("prims {:?}", prims);
+        for f in &fns {
+            if !f.exported || f.file == "internal" {
+                continue;
+            }
+            let c = aut::automaton_mode(&fns, f, aut::AMode::Lock, &prims);
+            if !c.has_protocol_event {
+                continue;
+            }
+            println!("== {}", f.qname);
+            for l in &c.lines {
+                println!("   {}", l);
+            }
+            for u in &c.unsupported {
+                println!("   UNSUPPORTED {}", u);
+            }
+        }
+        return;
+    }
     if args.len() == 3 && args[1] == "--aut" {
         // debugging aid: print the canonical automata of the protocol functions
         let mut fns = vec![];
@@ -989,6 +1015,43 @@ fn main() {
     // side table for the trace acceptor's glue: source line of every atomic site (not part of the Coq development)
     fs::write(format!("{}/sites.tsv", out), site_lines.join("\n") + "\n").unwrap();
     fs::write(format!("{}/Gen_Skel.v", out), skel).unwrap();
+
+    // ---------------- Gen_Lock.v: lock-discipline automata of the entry points of lib.rs / future.rs
+    {
+        let mut fns = vec![];
+        for f in ["lib.rs", "future.rs", "internal.rs"] {
+            aut::collect(f, &parsed[f], &mut fns);
+        }
+        let prims = aut::lock_prims(&fns);
+        let mut rows: Vec<String> = vec![];
+        for f in &fns {
+            if !f.exported || f.file == "internal" {
+                continue;
+            }
+            let c = aut::automaton_mode(&fns, f, aut::AMode::Lock, &prims);
+            if !c.has_protocol_event {
+                continue;
+            }
+            let mut edges: Vec<String> = vec![];
+            for l in &c.lines {
+                // "s<a> -- <label> --> s<b>"
+                let parts: Vec<&str> = l.splitn(2, " -- ").collect();
+                let rest: Vec<&str> = parts[1].rsplitn(2, " --> ").collect();
+                let a = parts[0].trim_start_matches('s');
+                let b = rest[0].trim_start_matches('s');
+                edges.push(format!("({}, {}, {})", a, coq_str(rest[1]), b));
+            }
+            for u in &c.unsupported {
+                edges.push(format!("(0, {}, 0)", coq_str(&format!("unsupported[{}]", u))));
+            }
+            rows.push(format!("  ({}, [{}])", coq_str(&f.qname), edges.join("; ")));
+        }
+        let mut lk = String::new();
+        writeln!(lk, "(* generated by kx from /repo/src - do not edit *)\nFrom Coq Require Import String List.\nImport ListNotations.\nOpen Scope string_scope.\n").unwrap();
+        writeln!(lk, "(* (function, transitions (from, event, to)) : acquire / try_acquire=some|none / release / cs (use of the protected data) / wait / ret[] / panic! *)").unwrap();
+        writeln!(lk, "Definition lock_automata : list (string * list (nat * string * nat)) := [\n{}\n].", rows.join(";\n")).unwrap();
+        fs::write(format!("{}/Gen_Lock.v", out), lk).unwrap();
+    }
 
     // ---------------- Gen_Ptr.v
     for f in ["pointer.rs", "lib.rs", "future.rs"] {
